@@ -86,8 +86,11 @@ def check(ctx):
     cells = solver_cells(ctx.quick) + [("bcc_conv", (1, 1, 1)), ("ortho_C", (1, 1, 1))]
     if not ctx.quick:
         cells += [("fcc_conv", (1, 1, 1)), ("tri1", (2, 2, 1))]
-    for cname, diag in cells:
-        P = Prepared(cname, diag, rng)
+    from gens import reordered, base_cells as _bc, make_supercell as _ms
+    twin0 = _ms(_bc()["mono_P"], (2, 1, 1))
+    # twins (same atom and lattice-point counts, other translation table) one after the other
+    for cname, diag in cells + [("twin", twin0), ("twin", reordered(twin0))]:
+        P = Prepared(None, None, rng, sc=diag) if cname == "twin" else Prepared(cname, diag, rng)
         N = P.N
         tp = P.trans_perms
         if sorted(P.p2s.tolist()) != sorted(set(tp.min(axis=0).tolist())) or list(P.p2s) != sorted(P.p2s.tolist()):
